@@ -182,8 +182,23 @@ def run(chk):
             chk.violation("C19.size", clo_s[0] if clo_s else size, "total += 2 + len(self._boundary) + 4", f"{name} emits {L.fmt(f_c)}", f"declared size of the closing delimiter differs from what {name} emits")
     ps = norm.fn_defs(size.node).defs.get("part_size", [])
     rn = [r for r in ast.walk(size.node) if isinstance(r, ast.Return) and isinstance(r.value, ast.Constant) and r.value.value is None]
-    if ps and norm.raw(ps[0][1]) == "part.size" and rn and {str(l) for c in PC.pc(rn[0], raw=True) for l in c} >= {"(encoding)", "(te_encoding)", "(part_size is None)"}:
+    want_lits = {"(encoding)", "(te_encoding)", "(part_size is None)"}
+    # latch form: the test sets a flag that is false before the loop, and every return of a number is under `not flag`
+    latch_ok = None
+    for a in ast.walk(size.node):
+        if isinstance(a, ast.Assign) and isinstance(a.targets[0], ast.Name) and isinstance(a.value, ast.Constant) and a.value.value is True \
+                and {str(l) for c in PC.pc(a, raw=True) for l in c} >= want_lits:
+            flag = a.targets[0].id
+            others = [v for d, v in norm.fn_defs(size.node).defs.get(flag, []) if d is not a]
+            nums = [r for r in ast.walk(size.node) if isinstance(r, ast.Return) and r.value is not None and not (isinstance(r.value, ast.Constant) and r.value.value is None)]
+            if others and all(isinstance(v, ast.Constant) and v.value is False for v in others) and nums and all(
+                    any((not l.pos and l.text == flag) for l in PC.units(PC.pc(r, raw=True))) for r in nums) and rn and any(
+                    any(l.pos and l.text == flag for l in PC.units(PC.pc(r, raw=True))) for r in rn):
+                latch_ok = a
+    if ps and norm.raw(ps[0][1]) == "part.size" and rn and {str(l) for c in PC.pc(rn[0], raw=True) for l in c} >= want_lits:
         chk.ok("C19.size", rn[0], "size is None whenever a part is content/transfer-encoded or of unknown size (the body is then chunked)")
+    elif ps and norm.raw(ps[0][1]) == "part.size" and latch_ok is not None:
+        chk.ok("C19.size", latch_ok, f"a part that is content/transfer-encoded or of unknown size raises the flag `{latch_ok.targets[0].id}`; a number is returned only while the flag is down, None otherwise (the body is then chunked)")
     else:
         chk.violation("C19.size", size, "if encoding or te_encoding or part_size is None: return None", "", "a size is declared although a part is re-encoded while writing")
     # write(): re-encoding happens exactly when size said None
@@ -534,8 +549,15 @@ def round6_rules(chk, repo):
     stripped: set[str] = set()
     for f in (pcd, cdf):
         for c in prog.calls_in(f.node):
-            if isinstance(c.func, ast.Attribute) and c.func.attr == "lstrip" and c.args and isinstance(c.args[0], ast.Constant) and isinstance(c.args[0].value, str):
-                stripped |= set(c.args[0].value)
+            if isinstance(c.func, ast.Attribute) and c.func.attr == "lstrip" and c.args:
+                # the characters are a constant, or a local that is one of several constants (`"\\/" if <a file name> else ""`)
+                vals = [c.args[0]]
+                if isinstance(c.args[0], ast.Name):
+                    vals = [v for _d, v in norm.fn_defs(f.node).defs.get(c.args[0].id, []) if v is not None]
+                for v in vals:
+                    for k in ([v.body, v.orelse] if isinstance(v, ast.IfExp) else [v]):
+                        if isinstance(k, ast.Constant) and isinstance(k.value, str):
+                            stripped |= set(k.value)
     try:
         token = folder.name(hmod, "TOKEN")
     except NotConst as e:
